@@ -360,3 +360,7 @@ func TypeIs(t types.Type, pkgPath, name string) bool {
 	n := NamedOf(t)
 	return n != nil && n.Obj().Name() == name && n.Obj().Pkg() != nil && n.Obj().Pkg().Path() == pkgPath
 }
+
+func InModuleVar(v *types.Var) bool {
+	return v != nil && v.Pkg() != nil && strings.HasPrefix(v.Pkg().Path(), Mod)
+}
